@@ -11,7 +11,7 @@ import sweep
 from common import Suite
 
 TRUSTED = ["C07: that every deleting / renaming rule consults `preserve` is examined by the surface oracle, rule by rule evidence is in C08",
-           "C07: parsing.iter_assignments is taken from the real code when the summary is exported (its gaps - list / starred targets - show up in the surface oracle)"]
+           "C07: parsing.iter_assignments is taken from the real code when the summary is exported (the surface oracle has its own, ast-based collection of assigned names)"]
 ASSUMPTIONS = []
 
 
@@ -22,10 +22,10 @@ def safeset_suite(ctx):
     for src in srcs:
         for pres in ([], ["extra_name", "helper"]):
             try:
-                defs, cms, assigns = pc.summary(src)
+                defs, cms, assigns, cas = pc.summary(src)
             except SyntaxError:
                 continue
-            reqs.append({"suite": "preserve", "defs": defs, "class_methods": cms, "assigns": assigns, "preserve": pres, "used": [], "ns": "", "imported": [], "loads": [], "attrs": []})
+            reqs.append({"suite": "preserve", "defs": defs, "class_methods": cms, "class_assigns": cas, "assigns": assigns, "preserve": pres, "used": [], "ns": "", "imported": [], "loads": [], "attrs": []})
             metas.append((src, pres))
     answers = ctx.driver.ask(reqs)
     for (src, pres), ans in zip(metas, answers):
@@ -37,7 +37,7 @@ def safeset_suite(ctx):
             s.disagreements.append({"src": src, "preserve": pres, "model": sorted(ans.get("safe", [])), "real": sorted(real), "what": "the safe-mode preserve set differs from the model"})
         if len(real) > len(pres):
             s.nt([src, pres])
-    s.samples.append({"suite": "safeset", "src": pc.LIB_TEMPLATES[1][:120], "safe_set": ["Greeter", "Greeter.Meth", "Greeter.build", "Greeter.helper", "make"]})
+    s.samples.append({"suite": "safeset", "src": pc.LIB_TEMPLATES[1][:120], "safe_set": ["Greeter", "Greeter.Meth", "Greeter.build", "Greeter.greeting", "Greeter.helper", "Greeter.myVal", "make"]})
     s.note = "6 library-like templates + corpus programs x 2 caller preserve sets: the set format_code(safe=True) passes to _multi_run_fixes (captured) vs safeSet of the module summary"
     return s
 
